@@ -10,15 +10,37 @@ Open Scope Z_scope.
 Section bodies.
 Variable f : nat.
 
+(* ExpandFinal is only ever set after an argument has been appended: FunctionCallExpr.Value's
+   panic on "ExpandFinal with no arguments" cannot be reached through the parser *)
+Definition expand_has_args (loop : list expr -> diags -> M (list expr * bool * diags)) : Prop :=
+  forall a d s args ds s', loop a d s = Ok (args, true, ds) s' -> args <> [].
+
+Lemma rev_cons_not_nil {A} (x : A) l : rev (x :: l) <> [].
+Proof. cbn. destruct (rev l); discriminate. Qed.
+
+Lemma call_args_expand_body p_expr self :
+  expand_has_args self -> expand_has_args (call_args_loop_body f p_expr self).
+Proof.
+  unfold expand_has_args. intros IH a d s args ds s' H.
+  unfold call_args_loop_body, bind, ret in H.
+  repeat match type of H with
+         | context[match ?x with _ => _ end] => destruct x eqn:?; try discriminate H
+         end.
+  all: try (inversion H; subst; apply rev_cons_not_nil).
+  all: eapply IH; eassumption.
+Qed.
+
 (* finishParsingFunctionCall *)
 Lemma function_call_good name_loop args_loop :
   (forall n o d, spec cName f (name_loop n o d)) -> (forall a d, spec cLoop f (args_loop a d)) ->
+  expand_has_args args_loop ->
   forall name, spec_pre (peeks is_call_open) cCall (S f) (finish_parsing_function_call_body f name_loop args_loop name).
 Proof.
-  unfold spec, spec_pre, peeks, is_call_open. intros Hn Ha name.
+  unfold spec, spec_pre, peeks, is_call_open. intros Hn Ha Hx name.
   intros [tk lt sk rc] Hwf Hpre. destruct sk as [|b sk]; [exfalso; apply Hwf; reflexivity|]. clear Hwf.
   norm_in Hpre. cbv beta iota delta [hd] in Hpre.
   unfold finish_parsing_function_call_body. run.
+  all: exfalso; match goal with E : _ = Ok ([], true, _) _ |- _ => apply Hx in E; apply E; reflexivity end.
 Qed.
 
 (* parseTupleCons *)
